@@ -190,6 +190,13 @@ def run_codes(ctx, case):
     if n <= (6 if ctx.tier == 'quick' else 8):
         A, B = nq.qec.quantum_weight_enumerator(cw)
         ctx.require(len(A) == n and len(B) == n, 'enumerator lengths')
+        if n <= 5:
+            import io
+            import contextlib
+            with contextlib.redirect_stderr(io.StringIO()):
+                A_t, B_t = nq.qec.quantum_weight_enumerator(cw, use_tqdm=True)
+            ctx.close(A_t, A, 1e-12, 'quantum_weight_enumerator(use_tqdm=True) = default call (A)')
+            ctx.close(B_t, B, 1e-12, 'quantum_weight_enumerator(use_tqdm=True) = default call (B)')
         ctx.close(1 + A.sum(), 2 ** n / K, 1e-8, 'sum rule: sum_j A_j = 2^n / K')
         ctx.close(1 + B.sum(), 2 ** n * K, 1e-7, 'sum rule: sum_j B_j = 2^n K')
         ctx.require(np.all(A >= -1e-9) and np.all(B >= A - 1e-8), 'enumerators: 0 <= A_j <= B_j')
